@@ -325,6 +325,12 @@ func (s *Sim) answer(r *Req, outcome string) {
 		// the meta object is kept apart: Outcome is what the oracles compare
 		r.Outcome, r.MetaJSON = outcome[:i], outcome[i+6:]
 	}
+	if strings.HasPrefix(r.Outcome, "rid:") && strings.Contains(r.Outcome, "{cid}") && r.CID != "" {
+		// a resource response naming the caller's own resource by the tag: the
+		// oracles compare resource ids in their expanded form (what is sent to the
+		// gateway keeps the tag)
+		r.Outcome = strings.ReplaceAll(r.Outcome, "{cid}", r.CID)
+	}
 	r.AnsStep, r.AnsCut = s.Step, s.Cut
 	s.mu.Unlock()
 	tr := s.tr
